@@ -105,7 +105,7 @@ class World:
     Everything else (custom-message / named proxies, the two other managers, the middlewares) is made on first use."""
 
     __slots__ = ("ext", "loc", "st", "mgr", "cv", "px", "pl", "pt", "pcv", "dyn", "lazy",
-                 "py", "ptn", "pcn", "pf", "la", "lb", "sa", "sb", "pz", "open")
+                 "py", "ptn", "pcn", "pf", "la", "lb", "sa", "sb", "pz", "open", "pv")
 
     def __init__(self, ext=False):
         self.ext = ext
@@ -117,6 +117,7 @@ class World:
         self.pl = loc("l")
         self.pt = st()
         self.pcv = LocalProxy(self.cv)
+        self.pv = st("v")                                 # NAMED stack proxy: attribute "v" of the top object
         self.dyn = None
         self.lazy = {}
         self.open = {}
@@ -163,8 +164,29 @@ class World:
         return v
 
 
+class Box:
+    """A small object with an attribute, pushed on the stack and NEVER referenced by the harness afterwards: once
+    every context has popped it, it is garbage and its address may be reused by the next Box."""
+    __slots__ = ("v",)
+
+    def __init__(self, v):
+        self.v = v
+
+    def __repr__(self):
+        return f"Box({self.v})"
+
+
+class MBox(Box):
+    """The model's own twin of a Box (never seen by werkzeug)."""
+    __slots__ = ()
+
+
 def render(v):
-    return ("L",) + tuple(v) if isinstance(v, list) else v
+    if isinstance(v, list):
+        return ("L",) + tuple(v)
+    if isinstance(v, Box):
+        return ("B", v.v)
+    return v
 
 
 def val(tok):
@@ -203,15 +225,15 @@ def observe(w):
     if not w.ext:
         return (
             tuple(sorted([(k, render(v)) for k, v in w.loc])),
-            tuple(w.st._storage.get(())),
+            tuple([render(x) for x in w.st._storage.get(())]),
             w.cv.get(UNSET),
-            res(w.px), res(w.pt), res(w.pcv), res(w.pl),
+            res(w.px), res(w.pt), res(w.pcv), res(w.pl), res(w.pv),
         )
     return (
         tuple(sorted([(k, render(v)) for k, v in w.loc])),
-        tuple(w.st._storage.get(())),
+        tuple([render(x) for x in w.st._storage.get(())]),
         w.cv.get(UNSET),
-        res(w.px), res(w.pt), res(w.pcv), res(w.pl), res(w.py), res(w.ptn), res(w.pcn), res(w.pf),
+        res(w.px), res(w.pt), res(w.pcv), res(w.pl), res(w.pv), res(w.py), res(w.ptn), res(w.pcn), res(w.pf),
         tuple(sorted(w.la)), tuple(sorted(w.lb)), tuple(w.sa._storage.get(())), w.sb.top, res(w.pz),
     )
 
@@ -325,11 +347,21 @@ def do(w, op, cid):
     if op == "iter":
         return tuple(sorted((k, render(v)) for k, v in loc))
     if op[:5] == "push ":
-        return tuple(st.push(val(op[5:])))
+        return tuple([render(x) for x in st.push(val(op[5:]))])
+    if op[:8] == "pushbox ":
+        return tuple([render(x) for x in st.push(Box(int(op[8:])))])     # no reference to the Box is kept
+    if op[:7] == "rebind ":
+        top = st.top
+        if not isinstance(top, Box):
+            return "NOBOX"
+        top.v = int(op[7:])
+        return None
+    if op == "proxy v":
+        return rd(w.pv)
     if op == "pop":
-        return st.pop()
+        return render(st.pop())
     if op == "top":
-        return st.top
+        return render(st.top)
     if op == "release":
         release_local(loc)
         release_local(st)
@@ -451,12 +483,13 @@ def do(w, op, cid):
 
 class G:
     """Model globals: the heap of by-value shared lists, whether the late proxy exists, open middleware iterators."""
-    __slots__ = ("heap", "dyn", "open")
+    __slots__ = ("heap", "dyn", "open", "boxes")
 
     def __init__(self):
         self.heap = []
         self.dyn = False
         self.open = set()
+        self.boxes = []
 
 
 # (sorted attr items, stack, var, twin attr items, twin stack); attr values: int or ("ref", k)
@@ -464,7 +497,14 @@ M0 = ((), (), UNSET, (), ())
 
 
 def _val(g, v):
-    return g.heap[v[1]] if isinstance(v, tuple) else v
+    if isinstance(v, tuple):
+        return g.boxes[v[1]] if v[0] == "box" else g.heap[v[1]]
+    return v
+
+
+def _rs(g, s):
+    """rendered stack"""
+    return tuple([render(_val(g, x)) for x in s])
 
 
 def unbound(msg=MSG_DEFAULT):
@@ -495,30 +535,31 @@ _MO_CACHE: dict = {}
 
 
 def m_observe(g, m, ext=True):
-    key = (m, tuple(map(tuple, g.heap))) if g.heap else m
+    key = (m, tuple(map(tuple, g.heap)), tuple([b.v for b in g.boxes])) if (g.heap or g.boxes) else m
     hit = _MO_CACHE.get(key)
     if hit is not None:
-        return hit if ext else hit[:7]
+        return hit if ext else hit[:8]
     d, s, c, d2, s2 = m
     dd = dict(d)
     dd2 = dict(d2)
     out = (
         tuple((k, render(_val(g, v))) for k, v in d),
-        s,
+        _rs(g, s),
         c,
         render(_val(g, dd["x"])) if "x" in dd else "RE",
-        s[-1] if s else "RE",
+        render(_val(g, s[-1])) if s else "RE",
         c if c != UNSET else "RE",
         render(_val(g, dd["l"])) if "l" in dd else "RE",
+        m_named(bool(s), _val(g, s[-1]) if s else None, "v"),
         dd["y"] if "y" in dd else "RE",
-        m_named(bool(s), s[-1] if s else None),
+        m_named(bool(s), _val(g, s[-1]) if s else None),
         m_named(c != UNSET, c),
         dd["x"] if "x" in dd else "nox",
         d2, d2, s2, (s2[-1] if s2 else None), (dd2["z"] if "z" in dd2 else "RE"),
     )
     if len(_MO_CACHE) < 200_000:
         _MO_CACHE[key] = out
-    return out if ext else out[:7]
+    return out if ext else out[:8]
 
 
 def _with(d, k, v):
@@ -552,11 +593,22 @@ def m_do(g, m, op, cid):
         return m, tuple((k, render(_val(g, v))) for k, v in d)
     if op[:5] == "push ":
         sn = s + (val(op[5:]),)
-        return (d, sn, c, d2, s2), sn
+        return (d, sn, c, d2, s2), _rs(g, sn)
+    if op[:8] == "pushbox ":
+        g.boxes.append(MBox(int(op[8:])))
+        sn = s + (("box", len(g.boxes) - 1),)
+        return (d, sn, c, d2, s2), _rs(g, sn)
+    if op[:7] == "rebind ":
+        if not (s and isinstance(s[-1], tuple)):
+            return m, "NOBOX"
+        g.boxes[s[-1][1]].v = int(op[7:])      # in place: every context holding this very object sees it (by value)
+        return m, None
+    if op == "proxy v":
+        return m, m_rd(g, bool(s), s[-1] if s else None, name="v")
     if op == "pop":
-        return ((d, s[:-1], c, d2, s2), s[-1]) if s else (m, None)
+        return ((d, s[:-1], c, d2, s2), render(_val(g, s[-1]))) if s else (m, None)
     if op == "top":
-        return m, (s[-1] if s else None)
+        return m, (render(_val(g, s[-1])) if s else None)
     if op in ("release", "cleanup"):
         return ((), (), c, d2, s2), None
     if op in ("release loc", "cleanup1"):
@@ -673,7 +725,12 @@ FALSY = ["set x=0", "set x=e", "set x=N", "push 0", "push e", "push F", "cv=0", 
 FALSY10 = ["set x=0", "set x=N", "push 0", "push e", "cv=0", "pop", "del x", "proxy x", "proxy top", "proxy cv"]
 FALSY6 = ["set x=0", "push 0", "push e", "cv=0", "pop", "proxy top"]
 FALSY_LINE = ["set x=0", "push 0", "push F", "cv=0", "pop", "rd top", "rd x", "rd cv"]
-ALPH = {"falsy": FALSY, "falsy10": FALSY10, "falsy6": FALSY6, "falsyline": FALSY_LINE, "full": FULL, "mid": MID, "fullline": FULL_LINE, "writes": WRITES, "core6": CORE6, "core4": CORE4,
+# wave 4 (seed C18-4b): objects WITH attributes on the stack, a named stack proxy, attribute rebinding on the top
+# object, and push / pop / push of fresh same-type objects that nobody keeps alive (address reuse may happen)
+BOX = ["pushbox 1", "pushbox 2", "rebind 3", "rebind 4", "pop", "push 2", "release", "proxy v", "proxy top"]
+BOX6 = ["pushbox 1", "pushbox 2", "rebind 3", "pop", "release", "proxy v"]
+BOX_LINE = ["pushbox 1", "pushbox 2", "rebind 3", "pop", "rd top"]
+ALPH = {"box": BOX, "box6": BOX6, "boxline": BOX_LINE, "falsy": FALSY, "falsy10": FALSY10, "falsy6": FALSY6, "falsyline": FALSY_LINE, "full": FULL, "mid": MID, "fullline": FULL_LINE, "writes": WRITES, "core6": CORE6, "core4": CORE4,
         "line8": LINE8, "proxy": PROXY, "proxy10": PROXY10, "proxy6": PROXY6, "twin": TWIN, "twin6": TWIN6, "mw": MW, "mw6": MW6,
         "hop": HOP, "hop6": HOP6}
 EXT_ALPH = {"proxy", "proxy10", "proxy6", "twin", "twin6", "mw", "mw6", "hop", "hop6"}   # families run in the extended world
@@ -686,6 +743,7 @@ STARTS = {
     "used-nolist": ("set x=1", "push 1", "cv=1"),
     "used2": ("set x=1", "push 1", "newlist", "cv=1", "a.set z=1", "sa.push 1"),
     "falsy": ("set x=0", "push 1", "push 0", "cv=0"),       # a parent already bound to falsy objects
+    "boxed": ("set x=1", "pushbox 1"),                       # a parent whose top object is shared by value
 }
 
 # families: (arrangement, alphabet, ops per context, starts, realisations)
@@ -704,6 +762,10 @@ QUICK = [
     ("S3", "core4", 1, ("used",), ("thr", "aio")),
     ("S2", "writes", 2, ("used",), ("aio",)),
     ("PC", "core6", 2, ("empty", "used"), ("aio",)),
+    ("S2", "box", 2, ("empty", "boxed"), ("ctx",)),
+    ("PC", "box6", 2, ("empty", "boxed"), ("ctx",)),
+    ("S2", "box6", 1, ("empty",), ("thr",)),
+    ("S2", "box6", 2, ("empty",), ("aio",)),
     # round 2 (wall budget: the larger thread / asyncio / line families of these mechanisms run in thorough only)
     ("S2", "falsy10", 2, ("used", "falsy"), ("ctx",)),
     ("PC", "falsy6", 2, ("empty", "falsy"), ("ctx",)),
@@ -740,6 +802,11 @@ THOROUGH = [
     ("S3", "core4", 2, ("empty",), ("ctx",)),
     ("S3", "core4", 2, ("empty", "used"), ("aio",)),
     ("S3", "writes", 1, ("empty", "used"), ("ctx", "thr", "aio")),
+    ("S2", "box", 2, ("empty", "boxed"), ("ctx", "aio", "thr")),
+    ("S2", "box6", 3, ("empty", "boxed"), ("ctx", "aio")),
+    ("PC", "box", 2, ("empty", "boxed"), ("ctx", "aio")),
+    ("PC", "box6", 2, ("empty", "boxed"), ("thr", "aiox")),
+    ("S3", "box6", 2, ("empty",), ("ctx",)),
     # round 2
     ("S2", "falsy", 2, ("empty", "used", "falsy"), ("ctx", "aio")),
     ("S2", "falsy10", 2, ("empty", "falsy"), ("aiox",)),
@@ -775,12 +842,13 @@ THOROUGH = [
 #   NB the line-level oracle is "every context behaves as if alone", which does not hold for a list shared BY VALUE
 #   (the order of appends is the schedule): line families never combine a start that stores a list with `append`
 #   "S2": two sibling threads;  "PC": the parent thread spawns the child thread (copy_context) at every position
-LINE_QUICK = [("S2", "falsyline", 1, ("falsy",), 1), ("S2", "fullline", 1, ("used-nolist",), 1),
+LINE_QUICK = [("S2", "boxline", 1, ("empty",), 1), ("S2", "falsyline", 1, ("falsy",), 1), ("S2", "fullline", 1, ("used-nolist",), 1),
               ("S2", "fullline", 1, ("empty",), 1), ("S2", "core4", 1, ("used-nolist",), 2),
               ("S2", "core4", 2, ("used-nolist",), 1), ("S2", "mw6", 1, ("used-nolist",), 1),
               ("S2", "twin6", 1, ("used2",), 1), ("PC", "core4", 1, ("used-nolist",), 2),
               ("PC", "core4", 2, ("used-nolist",), 1)]
-LINE_THOROUGH = [("S2", "falsyline", 1, ("empty", "falsy"), 2), ("S2", "falsyline", 2, ("falsy",), 1),
+LINE_THOROUGH = [("S2", "boxline", 1, ("empty",), 2), ("S2", "boxline", 2, ("empty",), 1),
+                 ("S2", "falsyline", 1, ("empty", "falsy"), 2), ("S2", "falsyline", 2, ("falsy",), 1),
                  ("PC", "falsy6", 2, ("falsy",), 1),
                  ("S2", "fullline", 1, ("empty", "used-nolist"), 2), ("S2", "core4", 2, ("empty", "used-nolist"), 2),
                  ("S2", "line8", 2, ("used-nolist",), 1), ("S2", "mw6", 1, ("empty", "used-nolist"), 2),
@@ -839,11 +907,13 @@ def outcome_tokens(start, progs):
             m, r = m_do(g, m, op, c)
             if r is None:
                 cls = "None"
-            elif isinstance(r, str) and r in ("AE", "RE", "IE", "NOPROXY", "NOITER"):
+            elif isinstance(r, str) and r in ("AE", "RE", "IE", "NOPROXY", "NOITER", "NOBOX"):
                 cls = r
             elif op.startswith("bat"):
                 cls = "unbound" if isinstance(r[0], OneOf) else "bound"
             elif op.startswith("rd "):
+                cls = "unbound" if len(r) == 4 else "bound"
+            elif op == "proxy v":
                 cls = "unbound" if len(r) == 4 else "bound"
             elif op.startswith("proxy") and op != "proxy dyn":
                 cls = ("unbound" if r[0][0] == "RE" and len(r[0]) == 4
@@ -1098,7 +1168,8 @@ def check_lines(R, sname, progs, bound, spawn_of, ext=False):
 
 def run_line_unit(unit, R, tier):
     _k, arr, alphabet, k, sname, bound, shard, nshards = unit
-    if "newlist" in STARTS[sname] and {"append", "iadd", "setitem0"} & set(ALPH[alphabet]):
+    if ("newlist" in STARTS[sname] and {"append", "iadd", "setitem0"} & set(ALPH[alphabet])) or (
+            any(o.startswith("pushbox") for o in STARTS[sname]) and any(o.startswith("rebind") for o in ALPH[alphabet])):
         raise core.Broken(f"line family {unit}: a by-value shared list makes results schedule dependent")
     n = 0
     for progs, spawn_of in gen.shard(programs(arr, alphabet, k), nshards, shard):
@@ -1227,6 +1298,8 @@ def finalize(R, tier):
         need |= {"out:get x:val", "out:get x:AE", "out:top:val", "out:top:None", "out:proxy cv:unbound",
                  "out:bat cv:bound", "out:bat cv:unbound", "out:tt:append:RE", "out:tt:del x:AE",
                  "out:ex:get x:AE", "out:tt:del x:None", "out:tt:append:None"}
+    need |= {"op:pushbox 1", "op:rebind 3", "out:proxy v:bound", "out:proxy v:unbound", "out:rebind 3:None",
+             "out:rebind 3:NOBOX", "start:boxed"}
     need |= {"op:push 0", "op:push e", "op:set x=0", "op:cv=0", "out:proxy top:bound-falsy", "out:proxy x:bound-falsy",
              "out:proxy cv:bound-falsy", "start:falsy"}
     need |= {"real:ctx", "real:thr", "real:aio", "real:aiox", "real:line", "thr:native", "arr:S2", "arr:S3",
@@ -1254,7 +1327,7 @@ def finalize(R, tier):
 # ------------------------------------------------------------------ replay
 
 OBS_LEGEND = ("  (observation = attrs, stack, var, then what each proxy resolves to: loc('x'), st(), LocalProxy(var), "
-              "loc('l'), LocalProxy(loc,'y'), st('real'), LocalProxy(var,'real'), LocalProxy(callable); then the twin "
+              "loc('l'), st('v'), LocalProxy(loc,'y'), st('real'), LocalProxy(var,'real'), LocalProxy(callable); then the twin "
               "objects over one ContextVar: Local a, Local b, stack a, stack b top, b('z'))")
 
 
